@@ -61,6 +61,7 @@ def step (s : St) (op : String) (failAt : Option Nat) : St × String :=
       match s.keys[i]? with
       | none => (s, "skip")
       | some k =>
+        if !k.live then (s, "skip") else       -- the harness does not rotate through a rotated-away entry
         if !s.store.contains k.idTok then (s, "err") else
         if failsAt 0 then (s, "err") else
         if failsAt 1 then ({ s with store := s.next :: s.store, next := s.next + 1 }, "err")   -- new stored, old kept
@@ -79,6 +80,7 @@ def step (s : St) (op : String) (failAt : Option Nat) : St × String :=
       match s.keys[i]? with
       | none => (s, "skip")
       | some k =>
+        if !k.live then (s, "skip") else       -- nor does it export through one
         if s.store.contains k.idTok && k.asym then ({ s with keys := s.keys.set i { k with pubKnown := true } }, "ok")
         else (s, "err")
   | _ => (s, "bad")
